@@ -168,18 +168,20 @@ func buildCfgCases(thorough bool) []nodeCase {
 // ---------------------------------------------------------------- actions on the running node
 
 type actionObs struct {
-	DummyCreate   int    `json:"dummy_create,omitempty"` // HTTP status of POST signature/session with means=dummy
-	DummyVerify   string `json:"dummy_verify,omitempty"` // "valid" | "invalid" | "refused:<status>"
-	DummyFlow     string `json:"dummy_flow,omitempty"`   // non-strict: "ok" or what failed
-	LDUnlisted    string `json:"ld_unlisted,omitempty"`  // "loaded" | "refused"
-	LDUnlistedNet int    `json:"ld_unlisted_net"`        // dials + hits caused by it
-	LDListed      string `json:"ld_listed,omitempty"`    // Contexts=extra only
-	IAMPlain      string `json:"iam_plain,omitempty"`    // "ok" | "refused"
-	IAMPlainHits  int    `json:"iam_plain_hits"`         // requests that reached the plain listener
-	IAMRedirHits  int    `json:"iam_redirect_hits"`      // same, for https -> 302 -> http
-	IAMRedir      string `json:"iam_redirect,omitempty"` // "ok" | "refused"
-	VDRRedirHits  int    `json:"vdr_redirect_hits"`      // did:web resolution, https -> 302 -> http
-	VDRRedir      string `json:"vdr_redirect,omitempty"` // "resolved" | "refused" | "n/a"
+	DummyCreate   int                 `json:"dummy_create,omitempty"` // HTTP status of POST signature/session with means=dummy
+	DummyVerify   string              `json:"dummy_verify,omitempty"` // "valid" | "invalid" | "refused:<status>"
+	DummyFlow     string              `json:"dummy_flow,omitempty"`   // non-strict: "ok" or what failed
+	LDUnlisted    string              `json:"ld_unlisted,omitempty"`  // "loaded" | "refused"
+	LDUnlistedNet int                 `json:"ld_unlisted_net"`        // dials + hits caused by it
+	LDListed      string              `json:"ld_listed,omitempty"`    // Contexts=extra only
+	IAMPlain      string              `json:"iam_plain,omitempty"`    // "ok" | "refused"
+	IAMPlainHits  int                 `json:"iam_plain_hits"`         // requests that reached the plain listener
+	IAMRedirHits  int                 `json:"iam_redirect_hits"`      // same, for https -> 302 -> http
+	IAMRedir      string              `json:"iam_redirect,omitempty"` // "ok" | "refused"
+	VDRRedirHits  int                 `json:"vdr_redirect_hits"`      // did:web resolution, https -> 302 -> http
+	VDRRedir      string              `json:"vdr_redirect,omitempty"` // "resolved" | "refused" | "n/a"
+	Owned         map[string]ownedObs `json:"owned_clients,omitempty"`
+	Flows         []string            `json:"rfc021,omitempty"`
 }
 
 var apiClient = &nethttp.Client{Timeout: 10 * time.Second, Transport: &nethttp.Transport{DisableKeepAlives: true}}
@@ -270,6 +272,8 @@ func verifyVP(base string, vp json.RawMessage) string {
 func actions(c nodeCfg, sys *core.System, base string) actionObs {
 	var o actionObs
 	l := theLab()
+	time.Sleep(20 * time.Millisecond) // let the background refresh that engines start with the node issue its first requests
+	startHits, _ := l.Take()
 	ctx, cancel := context.WithTimeout(context.Background(), 20*time.Second)
 	defer cancel()
 	// dummy means
@@ -325,6 +329,10 @@ func actions(c nodeCfg, sys *core.System, base string) actionObs {
 			o.VDRRedir = "resolved"
 		}
 	}
+	// every strict node; with strict mode off only the configurations with at most one insecure setting (the rest adds nothing but time)
+	if c.Strict || len(c.insecureStart()) <= 1 {
+		o.Owned, o.Flows = ownedClientProbes(c, sys, startHits)
+	}
 	return o
 }
 
@@ -379,7 +387,7 @@ func runCfgCase(t *testing.T, r *ev.Run, nc nodeCase) {
 		for _, name := range nc.Spec.Unset { // the gated option is decided by the config file
 			delete(env, name)
 		}
-		return startSpec{Env: env, File: nc.Spec.File, Unset: nc.Spec.Unset} // File/Unset: the gating option of a "gating" case
+		return startSpec{Env: env, File: nc.Spec.File, Unset: nc.Spec.Unset, Files: ownedFiles} // File/Unset: the gating option of a "gating" case
 	}
 	res := runNode(t, mkSpec(), func(sys *core.System, base string) { obs = actions(c, sys, base) })
 	// "accepted with strict mode off" is the one direction in which a transient start-up failure of the sandbox (a port, NATS or
@@ -421,7 +429,9 @@ func runCfgCase(t *testing.T, r *ev.Run, nc nodeCase) {
 		if !res.Started {
 			return
 		}
-		judgeActions(r, nc, c, res, obs, "|gating:"+nc.Flag)
+		// action-level signatures carry no gating suffix: a defect that does not depend on the gate would otherwise be reported once per
+		// gate value; the replay case names the gate
+		judgeActions(r, nc, c, res, obs, "")
 		return
 	}
 	r.Outcome(fmt.Sprintf("strict=%v insecure=%v %s", c.Strict, len(ins) > 0, verdict))
@@ -449,6 +459,7 @@ func runCfgCase(t *testing.T, r *ev.Run, nc nodeCase) {
 
 // judgeActions: the clauses judged at the action, on a node that started. sfx is appended to violation signatures (gating cases).
 func judgeActions(r *ev.Run, nc nodeCase, c nodeCfg, res startResult, obs actionObs, sfx string) {
+	judgeOwned(r, nc, c, obs.Owned, obs.Flows, sfx)
 	if c.Strict && c.TLS == "disabled" && res.GRPCOpen {
 		r.Violation("C20|node|tls-off|grpc-listening"+sfx, "strict mode on, no TLS certificate configured, yet the gRPC network address accepts connections: "+ev.Key(c), nc)
 	}
